@@ -105,7 +105,8 @@ def one(ctx, y, yh, x, family):
             pairs.append(('r2adj', lf.linear_r2_points(pts, coef, M.R2.adjusted), M.r2(y, yl, M.R2.adjusted)))
         for nm, a, bb in pairs:
             a, bb = float(a), float(bb)
-            if a != bb and not (math.isnan(a) and math.isnan(bb)) and abs(a - bb) > 1e-12 * (abs(a) + abs(bb)):
+            # linear_r2 is a separate implementation of 1 - rss/tss (cancellation near 0): rounding scale is 1, not |value|
+            if a != bb and not (math.isnan(a) and math.isnan(bb)) and abs(a - bb) > 1e-9 * (abs(a) + abs(bb) + (1.0 if nm.startswith('r2') else 0.0)) + 1e-300:
                 ctx.fail('predicate', f'wrapper-{nm}==metric(y, m*x+b)', f'linear_fit.{nm}', case, dict(wrapper=a, metric=bb))
         if n >= 3 and np.ptp(y) > 0:
             q = F(d.call('metric', ['corrSq', core.rats(x), ys])[0])
